@@ -237,6 +237,44 @@ func explore(s *Scenario, c Component) {
 		}
 		vsched.Picker = nil
 		fmt.Fprintf(out, "DONE %s runs=%d exhaustive=false\n", s.ID, n)
+	case "pct":
+		// priority-based random schedules (PCT): every thread gets a random priority, the highest-priority
+		// runnable thread runs; at d random points the running thread drops to the lowest priority.
+		// Unlike uniform random choices this freezes some threads for long stretches.
+		cnt, seed, depth := atoi(s.Mode[1]), int64(atoi(s.Mode[2])), atoi(s.Mode[3])
+		vsched.MaxPreempt = -1
+		rng := rand.New(rand.NewSource(seed))
+		for ; n < cnt; n++ {
+			prio := map[int]int{}
+			low := 0
+			change := map[int]bool{}
+			for i := 0; i < depth; i++ {
+				change[rng.Intn(60+20*len(s.Threads))] = true
+			}
+			point := 0
+			vsched.OnSpin = func(id int) { low--; prio[id] = low }
+			vsched.Picker = func(canStay bool, ids []int) int {
+				point++
+				best, bi := -1<<30, 0
+				for i, id := range ids {
+					if _, ok := prio[id]; !ok {
+						prio[id] = 1000 + rng.Intn(1000)
+					}
+					if prio[id] > best {
+						best, bi = prio[id], i
+					}
+				}
+				if change[point] {
+					low--
+					prio[ids[bi]] = low
+				}
+				return bi
+			}
+			runOnce(s, c, n, nil, -1)
+		}
+		vsched.Picker = nil
+		vsched.OnSpin = nil
+		fmt.Fprintf(out, "DONE %s runs=%d exhaustive=false\n", s.ID, n)
 	case "solo":
 		// random prefix, then one thread runs alone until its current
 		// operation returns; every other thread stays frozen forever.
